@@ -57,9 +57,13 @@ def shards(tier, seed):
     for kind in simgw.KINDS:
         out.append({"name": f"{kind}-refusals", "kind": kind, "what": "refusals", "tier": tier, "seed": seed})
         out.append({"name": f"{kind}-fault-storm", "kind": kind, "what": "storm", "tier": tier, "seed": seed})
-        for fault in ("eof", "reset", "garbage_eof", "write_error", "eof_midpacket"):
+        for fault in ("eof", "reset", "garbage_eof", "write_error", "eof_midpacket", "busy_reply", "garbage_overrun"):
             if kind == "waveshare" and fault in ("eof", "garbage_eof", "eof_midpacket"):
                 continue
+            if fault == "busy_reply" and kind != "ebyte":
+                continue            # 'Sorry,Limited' is what an ECAN/EByte gateway answers when it has no free TCP slot
+            if fault == "garbage_overrun" and kind not in ("yd", "actisense"):
+                continue            # a line longer than the stream reader's limit exists only for the text clients
             if kind == "actisense" and fault == "write_error":
                 continue            # this client has no wire format for sending (C19 covers send on it)
             out.append({"name": f"{kind}-{fault}", "kind": kind, "what": "fault", "fault": fault, "scb": "ok", "tier": tier, "seed": seed})
@@ -126,6 +130,14 @@ def fault_session(kind, fault, step, settle=40.0, scb="ok", second=None, mapping
             elif fault == "eof_midpacket":
                 c.feed(packet(kind, 60)[:7])
                 c.feed_eof()
+            elif fault == "busy_reply":
+                # the gateway answers instead of serving (13 bytes, read as one frame): the client waits 30 s and
+                # treats the link as lost
+                c.feed(b"Sorry,Limited")
+            elif fault == "garbage_overrun":
+                # unterminated garbage beyond the reader's 64 KiB line limit: readline() fails with ValueError
+                # (LimitOverrunError), the link itself stays up
+                c.feed(bytes((0x41 + (i * 7) % 50) for i in range(70_000)))
             elif fault == "write_error":
                 c.fail_write_after = 0
                 c.fail_exc = BrokenPipeError(32, "broken pipe") if kind != "waveshare" else simgw.serial_loss_exception()
@@ -143,7 +155,7 @@ def fault_session(kind, fault, step, settle=40.0, scb="ok", second=None, mapping
             loop.call_later(second[1], lambda: inject(second[0], False))
         sim.spawn("connect")
         await asyncio.sleep(0.05)
-        if sim.conns:
+        if sim.conns and fault != "busy_reply":              # (the busy reply is a 13-byte frame: it arrives frame-aligned)
             sim.conns[0].feed(packet(kind, 50)[:5])          # a packet in flight when early faults hit
             await asyncio.sleep(0.01)
             if not sim.conns[0].lost and not sim.conns[0].eof_sent:
@@ -184,8 +196,9 @@ def check_recovery(sim, stats, info, acc, kind, fault, step, scb="ok"):
     after = [e for e in sim.trace if e["s"] >= info["inject_step"]]
     st_after = [(e["t"], e["state"]) for e in after if e["k"] == "status"]
     disc = next((t for t, s in st_after if s == "DISCONNECTED"), None)
-    if disc is None or disc - t_f > 5.0:
-        acc.violation("no-disconnected-after-fault", f"{kind}: no DISCONNECTED within 5 virtual s of '{fault}' at step {step} (statuses after fault: {st_after})", w)
+    deadline = 31.0 if fault == "busy_reply" else 5.0       # the client itself sleeps 30 s on the busy reply
+    if disc is None or disc - t_f > deadline:
+        acc.violation("no-disconnected-after-fault", f"{kind}: no DISCONNECTED within {deadline:.0f} virtual s of '{fault}' at step {step} (statuses after fault: {st_after})", w)
         return
     conn = next((t for t, s in st_after if s == "CONNECTED" and t >= disc), None)
     if conn is None:
@@ -463,9 +476,9 @@ def run_shard(spec, acc):
     if kind == "actisense":
         seconds = ["reset", "eof"]
     for k_, step in enumerate(steps):
-        sim, stats, info = fault_session(kind, fault, step, scb=scb, mapping=mapping)
+        sim, stats, info = fault_session(kind, fault, step, scb=scb, mapping=mapping, settle=50.0 if fault == "busy_reply" else 40.0)
         check_recovery(sim, stats, info, acc, kind, fault, step, scb)
-        if mapping:
+        if mapping or fault == "busy_reply":
             continue
         if not quick or k_ % 4 == 0:
             # the same session with another fault a few seconds after the first recovery
@@ -478,5 +491,5 @@ def run_shard(spec, acc):
 
 def replay(w, acc):
     if "fault" in w:
-        sim, stats, info = fault_session(w["client"], w["fault"], w["step"], scb=w.get("status_cb", "ok"))
+        sim, stats, info = fault_session(w["client"], w["fault"], w["step"], scb=w.get("status_cb", "ok"), settle=50.0 if w["fault"] == "busy_reply" else 40.0)
         check_recovery(sim, stats, info, acc, w["client"], w["fault"], w["step"], w.get("status_cb", "ok"))
